@@ -96,6 +96,9 @@ func (c11) Generate(r *sim.Rand, tier string) *sim.Scenario {
 		sc.Cfg["lr"] = r.LogUniform(1e-3, 1)
 	}
 	sc.Cfg["rngseed"] = float64(r.Intn(1 << 30))
+	if r.Bool(0.3) {
+		sc.Cfg["reread"] = 1
+	}
 	if r.Bool(0.25) {
 		sc.Cfg["init"] = 1
 	} else {
@@ -473,10 +476,19 @@ func (c11) execOne(sc *sim.Scenario) *sim.Outcome {
 		out.Fail("model-assembly", "FC.Weights() did not return two addressable parameters")
 		return fin()
 	}
+	// a trainer usually asks for the pointers once; with Cfg["reread"]=1 it
+	// asks again before every use
+	reread := sc.Cfg["reread"] == 1
+	slot := func(k int) *tensor.Tensor {
+		if reread {
+			return fc.Weights()[k].Value
+		}
+		return weights[k].Value
+	}
 	readW := func() ([]float64, []float64, bool) {
 		sim.Pause()
 		defer sim.Resume()
-		w, b := *fc.Weights()[0].Value, *fc.Weights()[1].Value
+		w, b := *slot(0), *slot(1)
 		if w == nil || b == nil || !sim.ShapeEq(w.Shape(), []int{cfg.O}) || !sim.ShapeEq(b.Shape(), []int{cfg.O}) {
 			return nil, nil, false
 		}
@@ -594,7 +606,7 @@ func (c11) execOne(sc *sim.Scenario) *sim.Outcome {
 		mustFail := !fresh[0] || !fresh[1] || st.Tag == "skip-backprop"
 		var uerr [2]error
 		for _, k := range order {
-			uerr[k] = sgd.Update(fc.Weights()[k].Value)
+			uerr[k] = sgd.Update(slot(k))
 		}
 		nW, nB, ok := readW()
 		if !ok {
@@ -686,7 +698,7 @@ func (c11) execOne(sc *sim.Scenario) *sim.Outcome {
 			faultFired = true
 			cw, cb := *weights[0].Value, *weights[1].Value
 			for k, name := range []string{"W", "B"} {
-				if err := sgd.Update(fc.Weights()[k].Value); err == nil {
+				if err := sgd.Update(slot(k)); err == nil {
 					out.Fail("stale-update-accepted", "%s: a second Update(%s) without a new gradient succeeded", where, name)
 					return fin()
 				}
@@ -704,11 +716,11 @@ func (c11) execOne(sc *sim.Scenario) *sim.Outcome {
 			faultFired = true
 		}
 		if !skipW {
-			(*fc.Weights()[0].Value).ResetGradContext(true)
+			(*slot(0)).ResetGradContext(true)
 			fresh[0] = true
 		}
 		if !skipB {
-			(*fc.Weights()[1].Value).ResetGradContext(true)
+			(*slot(1)).ResetGradContext(true)
 			fresh[1] = true
 		}
 	}
